@@ -33,7 +33,7 @@ REQUIRED_THEOREMS = ['Yaql.Props.C13.' + n for n in (
     'mem_union mem_intersect mem_difference mem_symmetricDifference union_comm union_assoc intersect_comm '
     'intersect_assoc union_absorb intersect_absorb difference_is_complement symmetricDifference_eq SetInv_ops '
     'get_set combineDicts_right_biased combineDicts_assoc get_delete delete_then_containsKey mergeWith_disjoint '
-    'memorize_same_elements unpack_binds unpack_binds_positional unpack_binds_named unpack_first '
+    'memorize_same_elements memorize_interleaved memorize_interleaved_full unpack_binds unpack_binds_positional unpack_binds_named unpack_first '
     'mapM_pure filterM_pure flatMapM_pure takeWhileM_pure dropWhileM_pure distinctM_pure findM_pure reduceM_pure '
     'scanM2_pure groupsM_pure sortRun_pure run_where run_select run_take run_skip run_reverse run_distinct run_orderBy_iter'
 ).split()]
@@ -137,9 +137,9 @@ def run_real(text, make_host, timeout=5):
     return r
 
 
-def run_ref(ref_data, ops):
+def run_ref(ref_data, ops, binder=None):
     try:
-        r = seqref.run_ref(ref_data, ops)
+        r = seqref.run_ref(ref_data, ops, binder)
         if size_of(r) > 3000:
             return ('big', None)       # beyond the engine's collection / memory limits (C08's subject)
         return ('ok', r)
@@ -151,9 +151,10 @@ def run_ref(ref_data, ops):
         return ('err', classify(e))
 
 
-def case_json(value, ops):
+def case_json(value, ops, binder=None):
     _, _, dj = prepare(value)
-    return {'data': dj, 'ops': [seqref.op_json(a, values.enc) for a in ops]}
+    return {'data': dj, 'ops': [seqref.op_json(a, values.enc) for a in ops],
+            'let': None if binder is None else seqref.op_json(binder, values.enc)}
 
 
 # ------------------------------------------------------------------ comparisons
@@ -270,12 +271,12 @@ def show_model(m):
 
 # ------------------------------------------------------------------ one case
 
-def evaluate_case(value, ops, model_reply):
+def evaluate_case(value, ops, model_reply, binder=None):
     """-> (failure or None, info) ; failure = (kind, what)"""
-    text = seqref.render(ops)
+    text = seqref.render(ops, binder)
     real = run_real(text, lambda: prepare(value)[0])
     _, refdata, _ = prepare(value)
-    ref = run_ref(refdata, ops)
+    ref = run_ref(refdata, ops, binder)
     if ref[0] == 'big':
         return None, dict(text=text, real=real, ref=('ood', None), model=model_reply)
     a_ref = agree_real_ref(real, ref)
@@ -342,7 +343,7 @@ def op_from_json(j):
             a[k] = None if v is None else lam_from_json(v)
         elif k in ('f2', 'g2'):
             a[k] = None if v is None else lam2_from_json(v)
-        elif k in ('n', 'm', 'k', 'b', 'b2', 'name', 'names', 'alias'):
+        elif k in ('n', 'm', 'k', 'b', 'b2', 'name', 'names', 'alias', 'ns'):
             a[k] = v
         elif k in ('v', 'w'):
             a[k] = dec_rt(v)
@@ -378,27 +379,28 @@ def lam2_from_json(j):
     return [j[0]]
 
 
-def replay_of(value, ops):
-    return {'data': value_to_json(value), 'ops': [seqref.op_json(a, values.enc) for a in ops]}
+def replay_of(value, ops, binder=None):
+    return {'data': value_to_json(value), 'ops': [seqref.op_json(a, values.enc) for a in ops],
+            'let': None if binder is None else seqref.op_json(binder, values.enc)}
 
 
-def fails(value, ops, drv, kind):
+def fails(value, ops, drv, kind, binder=None):
     try:
-        mr = ask_model(drv, [case_json(value, ops)])[0]
-        f, _ = evaluate_case(value, ops, mr)
+        mr = ask_model(drv, [case_json(value, ops, binder)])[0]
+        f, _ = evaluate_case(value, ops, mr, binder)
     except Exception:
         return None
     return f if f and f[0] == kind else None
 
 
-def shrink(value, ops, drv, kind):
+def shrink(value, ops, drv, kind, binder=None):
     """fewer stages, then fewer elements, while the same kind of failure persists"""
     changed = True
     while changed:
         changed = False
         for i in range(len(ops) - 1, -1, -1):
             cand = ops[:i] + ops[i + 1:]
-            if cand and fails(value, cand, drv, kind):
+            if cand and fails(value, cand, drv, kind, binder):
                 ops, changed = cand, True
                 break
         items = None
@@ -410,7 +412,7 @@ def shrink(value, ops, drv, kind):
             for i in range(len(items)):
                 cand = items[:i] + items[i + 1:]
                 cv = seqgen.Iter(cand) if isinstance(value, seqgen.Iter) else tuple(cand)
-                if fails(cv, ops, drv, kind):
+                if fails(cv, ops, drv, kind, binder):
                     value, changed = cv, True
                     break
     return value, ops
@@ -431,11 +433,11 @@ def work(args):
     try:
         batch = []
         for _ in range(n_cases):
-            kind, prof, value, ops = seqgen.pipeline(rng, fname)
-            batch.append((kind, prof, value, ops))
-        replies = ask_model(drv, [case_json(v, ops) for _, _, v, ops in batch])
-        for (kind, prof, value, ops), mr in zip(batch, replies):
-            f, info = evaluate_case(value, ops, mr)
+            kind, prof, value, ops, binder = seqgen.pipeline(rng, fname)
+            batch.append((kind, prof, value, ops, binder))
+        replies = ask_model(drv, [case_json(v, ops, b) for _, _, v, ops, b in batch])
+        for (kind, prof, value, ops, binder), mr in zip(batch, replies):
+            f, info = evaluate_case(value, ops, mr, binder)
             out['n'] += 1
             real, ref = info['real'], info['ref']
             ood = ref[0] == 'ood' or (mr or {}).get('err') == 'OOD'
@@ -450,9 +452,9 @@ def work(args):
             nontrivial = real[0] == 'ok' and not ood
             out['cases'].append((common.digest([info['text'], repr(value)]), nontrivial))
             if f and len(out['failures']) < 3:
-                sv, sops = shrink(value, ops, drv, f[0])
-                g = fails(sv, sops, drv, f[0]) or f
-                out['failures'].append((g[0], failure_key(sops, info), g[1], replay_of(sv, sops)))
+                sv, sops = shrink(value, ops, drv, f[0], binder)
+                g = fails(sv, sops, drv, f[0], binder) or f
+                out['failures'].append((g[0], failure_key(sops, info), g[1], replay_of(sv, sops, binder)))
         out['sample'] = dict(text=info['text'], data=repr(value), real=repr(real)[:200]) if n_cases else None
     finally:
         if drv:
@@ -475,12 +477,13 @@ def run(env, res):
         case = rp['case']
         value = value_from_json(case['data'])
         ops = [op_from_json(j) for j in case['ops']]
-        mr = ask_model(env['driver'], [case_json(value, ops)])[0]
-        f, info = evaluate_case(value, ops, mr)
+        binder = op_from_json(case['let']) if case.get('let') else None
+        mr = ask_model(env['driver'], [case_json(value, ops, binder)])[0]
+        f, info = evaluate_case(value, ops, mr, binder)
         res.case(common.digest([info['text'], repr(value)]), True, sample=info['text'])
         res.traces += 1
         if f:
-            res.fail(f[0], failure_key(ops, info), f[1], replay_of(value, ops))
+            res.fail(f[0], failure_key(ops, info), f[1], replay_of(value, ops, binder))
         return res
     n_cases = 300 if tier == 'quick' else 10000
     jobs = [(f, n_cases, env['seed'], use_model) for f in FUNCTIONS]
